@@ -607,7 +607,7 @@ pub fn corpus() -> &'static Vec<Vec<Vec<u8>>> {
         names.sort();
         for n in names {
             if let Ok(bytes) = std::fs::read(&n) {
-                for r in sml_rs::transport::decode(&bytes).into_iter().flatten().take(2) {
+                for r in crate::refenc::ref_extract(&bytes).into_iter().take(2) {
                     if ref_read(&r).is_ok() {
                         if let Some(bodies) = split_messages(&r) {
                             files.push(bodies);
